@@ -158,7 +158,13 @@ def copy_calls(kind, obj, rng):
                 ("relabel_variables(inplace=False)", lambda o: (o.relabel_variables(dict(m), inplace=False), kind)),
                 ("relabel_variables_as_integers(inplace=False)", lambda o: (o.relabel_variables_as_integers(inplace=False)[0], kind)),
                 ("a+a", lambda o: (o + o, kind)), ("k*a", lambda o: (float(k) * o, kind)), ("a-1", lambda o: (o - 1, kind)),
-                ("-a", lambda o: (-o, kind)), ("a+1", lambda o: (o + 1, kind))]
+                ("-a", lambda o: (-o, kind)), ("a+1", lambda o: (o + 1, kind)),
+                # neutral operands on either side: the result must still be a new object
+                ("0+a", lambda o: (0 + o, kind)), ("0.0+a", lambda o: (0.0 + o, kind)), ("a+0", lambda o: (o + 0, kind)),
+                ("a-0", lambda o: (o - 0, kind)), ("1*a", lambda o: (1 * o, kind)), ("a*1", lambda o: (o * 1, kind)),
+                ("1+a", lambda o: (1 + o, kind)), ("1-a", lambda o: (1 - o, kind)), ("0-a", lambda o: (0 - o, kind)),
+                ("sum([a])", lambda o: (sum([o]), kind)), ("sum([a,a])", lambda o: (sum([o, o]), kind)),
+                ("a/1", lambda o: (o / 1, kind))]
     if kind == 'bqm':
         vt = rng.choice(['SPIN', 'BINARY'])
         out += [("BQM(bqm)", lambda o: (dimod.BinaryQuadraticModel(o), kind)),
@@ -331,7 +337,7 @@ def run_case(c):
         for sseed in c["steps"]:
             r = wlib.Rng(sseed)
             owners = [i for i, h in enumerate(handles) if h.parent is None]
-            act = r.choice(['copy', 'copy', 'edit', 'edit', 'edit', 'view', 'move', 'discrete'])
+            act = r.choice(['copy', 'copy', 'edit', 'edit', 'edit', 'view', 'move', 'discrete', 'concat2'])
             if act == 'copy' and len(handles) >= 5:
                 act = 'edit'
             if act == 'copy':
@@ -382,6 +388,51 @@ def run_case(c):
                     feats["pickle_reorders_variables"] = True
                 if name == "concatenate([a])" and np.shares_memory(nobj.record, h.obj.record):
                     feats["concat_single_alias"] = True
+                emit(f"(OCopy {cnat(i)} {cnat(expected)})")
+            elif act == 'concat2':
+                # dimod.concatenate of SEVERAL live sample sets whose label orders / vartypes differ: every input, first or
+                # not, must be left bit-for-bit unchanged (later inputs are re-ordered / converted on the way in)
+                ssi = [i for i in owners if handles[i].kind == 'ss']
+                if not ssi or len(handles) > 3:
+                    continue
+                i = r.choice(ssi)
+                a = handles[i].obj
+                nv = len(a.variables)
+                if nv == 0:
+                    continue        # numpy.ma cannot stack the zero-width sample field (IndexError inside numpy)
+                perm = list(range(nv))
+                mode = r.choice(['reverse', 'reverse', 'shuffle', 'same'])
+                if mode == 'reverse':
+                    perm.reverse()
+                elif mode == 'shuffle':
+                    r.shuffle(perm)
+                labels_p = [list(a.variables)[k] for k in perm]
+                pvt = a.vartype
+                arr = a.record.sample[:, perm].copy()
+                if r.random() < 0.3 and a.vartype in (dimod.SPIN, dimod.BINARY) and arr.dtype.kind not in 'bu':
+                    pvt = dimod.BINARY if a.vartype is dimod.SPIN else dimod.SPIN
+                    arr = ((arr + 1) // 2 if a.vartype is dimod.SPIN else 2 * arr - 1).astype(arr.dtype)
+                vecs = {nm: a.record[nm].copy() for nm in a.record.dtype.names if nm not in ('sample', 'energy', 'num_occurrences')}
+                partner = dimod.SampleSet.from_samples((arr, labels_p), pvt, energy=a.record.energy.copy(),
+                                                       num_occurrences=a.record.num_occurrences.copy(),
+                                                       info={'id': 2, 'nested': {'a': [2]}}, sort_labels=False, **vecs)
+                handles.append(Handle(partner, 'ss'))
+                pi = len(handles) - 1
+                emit(f"(ONew {cnat(sid(snap(partner, 'ss')))})")
+                order = r.choice(['pa', 'ap', 'pap', 'apa'])
+                feats["op"] = "concatenate(%s,%s)" % (order, mode)
+
+                def cat(x, y):
+                    return dimod.concatenate([{'a': x, 'p': y}[ch] for ch in order])
+                try:
+                    eobj = cat(clone(a, 'ss'), clone(partner, 'ss'))
+                    expected = sid(snap(eobj, 'ss'))
+                except TypeError as e:
+                    if 'Incompatible type' in str(e):
+                        continue
+                    raise
+                nobj = cat(a, partner)
+                handles.append(Handle(nobj, 'ss', via="concatenate"))
                 emit(f"(OCopy {cnat(i)} {cnat(expected)})")
             elif act == 'view':
                 cands = [i for i in owners if handles[i].kind in ('bqm', 'cqm')]
